@@ -765,6 +765,110 @@ def _remap_rv(rv, lo):
     return rv
 
 
+def _closure_of_operand(B, bi, op):
+    """(closure body path, local holding the closure value) when a call argument is a closure built in the calling
+    block (aggregate) or a capture-less closure constant; else None"""
+    c = op.get("const")
+    if c is not None and "closure" in c:
+        return c["closure"], None
+    pl = op.get("move") or op.get("copy")
+    if pl is None or pl["p"]:
+        return None
+    defs = [s for s in B["blocks"][bi]["stmts"] if s["k"] == "assign" and s["lhs"]["l"] == pl["l"] and not s["lhs"]["p"]]
+    if len(defs) == 1 and defs[0]["rv"]["k"] == "agg" and defs[0]["rv"].get("ak") == "closure":
+        return defs[0]["rv"]["closure"], pl["l"]
+    return None
+
+
+def _copy_body(B, C, lo, bo, dest, cont, line):
+    """Append C's blocks to B (locals at offset lo, blocks at offset bo); `return` stores C's _0 into `dest` and jumps to `cont`."""
+    new_blocks = []
+    for cb in C["blocks"]:
+        nb = {"cleanup": cb["cleanup"], "stmts": [], "term": None}
+        for st in cb["stmts"]:
+            st2 = dict(st)
+            if st["k"] == "assign":
+                st2["lhs"] = _remap_place(st["lhs"], lo)
+                st2["rv"] = _remap_rv(st["rv"], lo)
+            elif st["k"] == "setdiscr":
+                st2["place"] = _remap_place(st["place"], lo)
+            nb["stmts"].append(st2)
+        ct = dict(cb["term"])
+        k = ct["k"]
+        if k == "return":
+            nb["stmts"].append({"k": "assign", "lhs": dest, "rv": {"k": "use", "op": {"move": {"l": lo, "p": []}}}, "line": ct.get("line", line), "exp": None})
+            ct = {"k": "goto", "t": cont, "line": ct.get("line", line), "exp": None} if cont is not None else {"k": "unreachable", "line": line, "exp": None}
+        else:
+            if k == "goto":
+                ct["t"] = ct["t"] + bo
+            elif k == "switch":
+                ct["discr"] = _remap_op(ct["discr"], lo)
+                ct["tgts"] = [x + bo for x in ct["tgts"]]
+                ct["otherwise"] = ct["otherwise"] + bo
+            elif k in ("call", "drop", "assert"):
+                if ct.get("t") is not None:
+                    ct["t"] = ct["t"] + bo
+                if isinstance(ct.get("unwind"), int):
+                    ct["unwind"] = ct["unwind"] + bo
+                if k == "call":
+                    ct["args"] = [_remap_op(a, lo) for a in ct["args"]]
+                    ct["dest"] = _remap_place(ct["dest"], lo)
+                    if "indirect" in ct["func"]:
+                        ct["func"] = {"indirect": _remap_op(ct["func"]["indirect"], lo), "ty": ct["func"].get("ty")}
+                elif k == "drop":
+                    ct["place"] = _remap_place(ct["place"], lo)
+                else:
+                    ct["cond"] = _remap_op(ct["cond"], lo)
+                    ct["ops"] = [_remap_op(a, lo) for a in ct["ops"]]
+        nb["term"] = ct
+        new_blocks.append(nb)
+    return new_blocks
+
+
+def _expand_and_then(B, bi, t, by_path):
+    """`dest = Result::and_then(r, |x| body)` with a local closure becomes
+         switch discriminant(r) { Ok => dest = body(x := payload), Err => dest = Err(payload) }
+    so that what the closure does (in order, and only on the Ok edge) is visible to every engine."""
+    if len(t["args"]) != 2 or t.get("t") is None:
+        return False
+    r_pl = t["args"][0].get("move") or t["args"][0].get("copy")
+    co = _closure_of_operand(B, bi, t["args"][1])
+    if r_pl is None or r_pl["p"] or co is None or co[0] not in by_path:
+        return False
+    C = by_path[co[0]]
+    if C["arg_count"] != 2:
+        return False
+    rty = B["locals"][r_pl["l"]].get("ty", "")
+    line = t.get("line", 0)
+    lo = len(B["locals"])
+    B["locals"] = B["locals"] + [dict(l) for l in C["locals"]] + [{"ty": "isize"}]
+    dl = len(B["locals"]) - 1
+    bo = len(B["blocks"])
+    _SUB.clear()
+    _POWNER[0] = co[0]
+    body_blocks = _copy_body(B, C, lo, bo + 2, t["dest"], t["t"], line)
+    _POWNER[0] = None
+    # Ok edge: bind the closure's parameters, enter its body
+    ok_stmts = []
+    if co[1] is not None:
+        if str(C["locals"][1].get("ty", "")).startswith("&"):
+            ok_stmts.append({"k": "assign", "lhs": {"l": lo + 1, "p": []}, "rv": {"k": "ref", "place": {"l": co[1], "p": []}, "mut": str(C["locals"][1]["ty"]).startswith("&mut")}, "line": line, "exp": None})
+        else:
+            ok_stmts.append({"k": "assign", "lhs": {"l": lo + 1, "p": []}, "rv": {"k": "use", "op": {"move": {"l": co[1], "p": []}}}, "line": line, "exp": None})
+    ok_stmts.append({"k": "assign", "lhs": {"l": lo + 2, "p": []}, "rv": {"k": "use", "op": {"move": {"l": r_pl["l"], "p": [{"dc": 0, "n": "Ok"}, {"f": 0, "n": "0", "ty": C["locals"][2].get("ty", ""), "of": rty}]}}}, "line": line, "exp": None})
+    ok_blk = {"cleanup": False, "stmts": ok_stmts, "term": {"k": "goto", "t": bo + 2, "line": line, "exp": None}}
+    err_blk = {"cleanup": False, "stmts": [
+        {"k": "assign", "lhs": t["dest"], "rv": {"k": "agg", "ak": "adt", "adt": "std::result::Result", "variant": 1, "vname": "Err", "fnames": ["0"], "active": None,
+                                                 "fields": [{"move": {"l": r_pl["l"], "p": [{"dc": 1, "n": "Err"}, {"f": 0, "n": "0", "ty": "", "of": rty}]}}]}, "line": line, "exp": None}],
+        "term": {"k": "goto", "t": t["t"], "line": line, "exp": None}}
+    B["blocks"] = B["blocks"] + [ok_blk, err_blk] + body_blocks
+    blk = B["blocks"][bi]
+    blk["stmts"].append({"k": "assign", "lhs": {"l": dl, "p": []}, "rv": {"k": "discr", "place": {"l": r_pl["l"], "p": []}, "of": rty}, "line": line, "exp": None})
+    blk["term"] = {"k": "switch", "discr": {"move": {"l": dl, "p": []}}, "vals": ["0", "1"], "tgts": [bo, bo + 1], "otherwise": bo + 1, "line": line, "exp": None,
+                   "inlined": co[0]}
+    return True
+
+
 def inline_helpers(facts, is_new, max_rounds=4):
     """Inline calls to `new helper` functions (local bodies for which is_new(path) holds) into their callers, on
     the raw exported MIR: the callee's locals and blocks are appended (renumbered), arguments become assignments
@@ -783,6 +887,11 @@ def inline_helpers(facts, is_new, max_rounds=4):
                 if t["k"] != "call" or "indirect" in t["func"]:
                     continue
                 cal = t["func"].get("rpath") or t["func"]["path"]
+                if cal == "std::result::Result::<T, E>::and_then" and "::tests::" not in B["path"]:
+                    if _expand_and_then(B, bi, t, by_path):
+                        done.append((B["path"], "and_then"))
+                        changed = True
+                    continue
                 if cal == B["path"] or cal not in by_path or not is_new(cal):
                     continue
                 C = by_path[cal]
@@ -809,46 +918,7 @@ def inline_helpers(facts, is_new, max_rounds=4):
                     if "place" in v:
                         B["debug"].append({"name": dv["name"], "v": {"place": _remap_place(v["place"], lo)}, "arg": None})
                 line = t.get("line", 0)
-                new_blocks = []
-                for cb in C["blocks"]:
-                    nb = {"cleanup": cb["cleanup"], "stmts": [], "term": None}
-                    for st in cb["stmts"]:
-                        st2 = dict(st)
-                        if st["k"] == "assign":
-                            st2["lhs"] = _remap_place(st["lhs"], lo)
-                            st2["rv"] = _remap_rv(st["rv"], lo)
-                        elif st["k"] == "setdiscr":
-                            st2["place"] = _remap_place(st["place"], lo)
-                        nb["stmts"].append(st2)
-                    ct = dict(cb["term"])
-                    k = ct["k"]
-                    if k == "return":
-                        nb["stmts"].append({"k": "assign", "lhs": t["dest"], "rv": {"k": "use", "op": {"move": {"l": lo, "p": []}}}, "line": ct.get("line", line), "exp": None})
-                        ct = {"k": "goto", "t": t["t"], "line": ct.get("line", line), "exp": None} if t.get("t") is not None else {"k": "unreachable", "line": line, "exp": None}
-                    else:
-                        if k == "goto":
-                            ct["t"] = ct["t"] + bo
-                        elif k == "switch":
-                            ct["discr"] = _remap_op(ct["discr"], lo)
-                            ct["tgts"] = [x + bo for x in ct["tgts"]]
-                            ct["otherwise"] = ct["otherwise"] + bo
-                        elif k in ("call", "drop", "assert"):
-                            if ct.get("t") is not None:
-                                ct["t"] = ct["t"] + bo
-                            if isinstance(ct.get("unwind"), int):
-                                ct["unwind"] = ct["unwind"] + bo
-                            if k == "call":
-                                ct["args"] = [_remap_op(a, lo) for a in ct["args"]]
-                                ct["dest"] = _remap_place(ct["dest"], lo)
-                                if "indirect" in ct["func"]:
-                                    ct["func"] = {"indirect": _remap_op(ct["func"]["indirect"], lo), "ty": ct["func"].get("ty")}
-                            elif k == "drop":
-                                ct["place"] = _remap_place(ct["place"], lo)
-                            else:
-                                ct["cond"] = _remap_op(ct["cond"], lo)
-                                ct["ops"] = [_remap_op(a, lo) for a in ct["ops"]]
-                    nb["term"] = ct
-                    new_blocks.append(nb)
+                new_blocks = _copy_body(B, C, lo, bo, t["dest"], t.get("t"), line)
                 B["blocks"] = B["blocks"] + new_blocks
                 blk = B["blocks"][bi]
                 for i, a in enumerate(t["args"]):
